@@ -149,15 +149,15 @@ GEN = {
                                      "max_device_reads_in_one_call": r.stats.get("max_device_reads_per_call", 0), "max_device_bytes_in_one_call": r.stats.get("max_device_read_bytes_per_call", 0), "items_yielded": r.stats.get("raw_items_yielded", 0), "slow_cases_over_2s": r.stats.get("slow_cases_over_2s", 0), "max_case_millis": r.stats.get("max_case_millis", 0)},
                 assumptions=["liveness is restated as bounded progress per call; wall clock is never a verdict (watchdog hits are inconclusive unless the case still does not return alone within 300 s)", "budget constants are generous on purpose: roxmltree needs ~50-100 bytes per XML token and a 64 KiB packet of 1-bit values expands 128x"]),
     "C15": dict(workload="crash", extra=[], quick=(2500, 60), thorough=(300000, 900), both=False,
-                rule="small writer programs (1-4 sections) run once on a recording device; for EVERY prefix of the recorded device writes and cut positions {1,8,16,24,32,33,34,40,47,48,49,512,1019..1023, every byte <48 for writes at offset 0, 2 random} inside the next write, the crash image (issue order, zero-filled gaps) is opened: images holding no byte written by the top-level finalize call must be rejected, accepted images must list exactly the completed file's content and every read must be Err or equal; plus the writer dropped without finalize after every item (optionally abandoning the last section writer); non-trivial = crash image built and judged; distinct = distinct program shapes (each contributes all its prefixes x cuts)",
+                rule="small writer programs (1-4 sections) run once on a recording device; for EVERY prefix of the recorded device writes and cut positions {1,8,16,24,32,33,34,40,47,48,49,512,1019..1023, every byte <48 for writes at offset 0, 2 random} inside the next write, the crash image (issue order, zero-filled gaps) is opened: images holding no byte written by the top-level finalize call must be rejected, accepted images must list exactly the completed file's content and every read must be Err or equal; plus the writer dropped without finalize after every item (optionally abandoning the last section writer); plus a second program started on a device that still holds the first program's complete file: either E57Writer::new refuses the used device (counted) or every prefix image of the new write, built on top of the old file, is judged by the same rule; non-trivial = crash image built and judged; distinct = distinct program shapes (each contributes all its prefixes x cuts)",
                 distinct=lambda r: len(r.nums.get("program_shape", ())), evaluations=lambda r: r.stats.get("images_built", 0),
-                extra_cov=lambda r: {"programs": r.stats.get("programs", 0), "images_rejected": r.stats.get("images_rejected", 0), "images_accepted_and_equal": r.stats.get("images_accepted_and_equal", 0), "write_kind_x_cut_class_cells": {k[4:]: v for k, v in r.cover.items() if k.startswith("cut:")}, "exhaustive": False, "exhaustive_part": "all prefixes of the device write sequence of every generated program"},
+                extra_cov=lambda r: {"programs": r.stats.get("programs", 0), "images_rejected": r.stats.get("images_rejected", 0), "used_device_runs_refused_by_writer": r.stats.get("used_device_refused", 0), "used_device_runs_accepted_by_writer": r.stats.get("used_device_accepted", 0), "images_accepted_and_equal": r.stats.get("images_accepted_and_equal", 0), "write_kind_x_cut_class_cells": {k[4:]: v for k, v in r.cover.items() if k.startswith("cut:")}, "exhaustive": False, "exhaustive_part": "all prefixes of the device write sequence of every generated program"},
                 assumptions=["writes reach the device in issue order (no reordering is generated)", "the recorder is validated per program: replaying all recorded writes must reproduce the completed file"]),
     "C16": dict(workload="fault", extra=[], quick=(5000, 60), thorough=(300000, 900), both=False,
-                rule="small writer programs and their read suites: (a) short-transfer schedules for reads and writes independently (1 byte, alternating, fixed k, random, random with ErrorKind::Interrupted; 4 per direction quick / 16 thorough) must give byte-identical files and identical read results; (b) ONE injected device error at EVERY device operation index (read/write/seek/flush; kinds Other, UnexpectedEof/WriteZero, write returning Ok(0)) of the writer program and of the reader suite: the public call in progress (identified by the M-DEV trace) must return Err, never panic or Ok; Ok from top-level finalize implies the device image equals the fault-free file; (c) the same single faults on a device that also limits every transfer to k bytes (k in {1,3,7,64,333,1000}), so that the fault arrives in the middle of a write_all / read_exact loop (sampled: 48 positions per program and direction quick, 400 thorough); non-trivial = fault or schedule run; distinct = distinct program shapes",
+                rule="small writer programs and their read suites: (a) short-transfer schedules for reads and writes independently (1 byte, alternating, fixed k, random, random with ErrorKind::Interrupted; 4 per direction quick / 16 thorough) must give byte-identical files and identical read results; (b) ONE injected device error at EVERY device operation index (read/write/seek/flush; kinds Other, UnexpectedEof/WriteZero, write returning Ok(0)) of the writer program and of the reader suite: the public call in progress (identified by the M-DEV trace) must return Err, never panic or Ok; Ok from top-level finalize implies the device image equals the fault-free file; (c) the same single faults on a device that also limits every transfer to k bytes (k in {1,3,7,64,333,1000}), so that the fault arrives in the middle of a write_all / read_exact loop (sampled: 48 positions per program and direction quick, 400 thorough); (d) the same single faults for a caller that IGNORES the failed call and carries on to the top-level finalize (64 positions per program quick, 600 thorough): whenever that finalize returns Ok the file must open and its listed content must equal, by the read-back oracle of C01/C04/C06, exactly what the calls that returned Ok were given; non-trivial = fault or schedule run; distinct = distinct program shapes",
                 distinct=lambda r: len(r.nums.get("program_shape", ())), evaluations=lambda r: r.stats.get("writer_fault_runs", 0) + r.stats.get("reader_fault_runs", 0) + r.stats.get("schedules_write", 0) + r.stats.get("schedules_read", 0),
-                extra_cov=lambda r: {"writer_fault_runs": r.stats.get("writer_fault_runs", 0), "reader_fault_runs": r.stats.get("reader_fault_runs", 0), "calls_observed_returning_err": r.stats.get("writer_calls_returned_err", 0) + r.stats.get("reader_calls_returned_err", 0), "faults_during_drop_exempt": r.stats.get("writer_fault_in_drop_exempt", 0), "writer_fault_runs_mid_transfer": r.stats.get("writer_fault_runs_mid_transfer", 0), "reader_fault_runs_mid_transfer": r.stats.get("reader_fault_runs_mid_transfer", 0),
-                                     "fault_cells": {k: v for k, v in r.cover.items() if k.startswith(("writer-fault:", "reader-fault:", "writer-fault-mid-transfer:", "reader-fault-mid-transfer:"))}, "exhaustive": False, "exhaustive_part": "every device operation index of every generated program and read suite"},
+                extra_cov=lambda r: {"writer_fault_runs": r.stats.get("writer_fault_runs", 0), "reader_fault_runs": r.stats.get("reader_fault_runs", 0), "calls_observed_returning_err": r.stats.get("writer_calls_returned_err", 0) + r.stats.get("reader_calls_returned_err", 0), "faults_during_drop_exempt": r.stats.get("writer_fault_in_drop_exempt", 0), "writer_fault_runs_mid_transfer": r.stats.get("writer_fault_runs_mid_transfer", 0), "writer_fault_runs_carry_on": r.stats.get("writer_fault_runs_carry_on", 0), "carry_on_top_level_finalize_ok": r.stats.get("carry_on_finalize_ok", 0), "carry_on_files_verified_by_readback": r.stats.get("carry_on_files_verified", 0), "reader_fault_runs_mid_transfer": r.stats.get("reader_fault_runs_mid_transfer", 0),
+                                     "fault_cells": {k: v for k, v in r.cover.items() if k.startswith(("writer-fault:", "reader-fault:", "writer-fault-mid-transfer:", "reader-fault-mid-transfer:", "writer-fault-carry-on:"))}, "exhaustive": False, "exhaustive_part": "every device operation index of every generated program and read suite"},
                 assumptions=["errors swallowed in Drop have no return value and are exempt", "a read returning Ok(0) while data exists violates the Read contract and is not injected; write returning Ok(0) is", "a failing device operation itself transfers nothing; partial progress before the failure comes from the preceding short transfers of stage (c)"]),
     "C17": dict(workload="history", extra=[], quick=(40000, 60), thorough=(2000000, 900), both=False,
                 rule="files with 2-4 point clouds (in a third of the files all with the same GUID) and 2-4 blobs (intact / one damaged data page / damaged section header / damaged blob header / page content altered and re-sealed / checksum stored byte-reversed or complemented); random sequences of 5..40 operations {raw iterate k in {0,1,half,all+2} then drop, simple iterate k with 4 option vectors, blob, blob into a failing writer, blob through a self-made descriptor with the same offset and another length, descriptors} on ONE reader over a device that in half the cases delivers short reads and in half the cases returns one transient error; every result is compared with the memoised result of the same operation on a fresh reader; non-trivial = sequence executed; distinct = distinct (sequence, damage class) identities",
